@@ -390,4 +390,5 @@ def retry_guard_contract():
     c = Contract("convert_params", {"Fisher_diag": mk_F, "Nsteps": mk_any, "nparam": lambda e, s: VInt(NPAR)},
                  requires=lambda S, a: [("nparam >= 1", NPAR >= 1)], ensures=ensures, region=_retry_guard_region, raises=lambda S, a, e: z3.BoolVal(False))
     c.region_name = "retry guard"
+    c.live_ins = ("Fisher_diag",)
     return c
